@@ -298,6 +298,54 @@ pub fn run(tier: &str) -> Result<Report, String> {
     }
     rep.set("tiny_alphabet_trees_per_size", json!(per_size2));
     rep.set("tiny_alphabet", json!(tiny.describe()));
+    // the entry points must EVALUATE what preprocessing returns: every well-scoped closed tree with <= 5 (6) nodes over an
+    // alphabet with non-canonical and permuted variable names (y, x, s; EF and & only, so that the self-loop-free entry point is
+    // applicable) on a small network: the text as written and the library's own preprocessed text must give the same set through
+    // model_check_formula_dirty, model_check_formula and model_check_formula_unsafe_ex
+    {
+        use biodivine_hctl_model_checker::model_checking as mc;
+        use rayon::prelude::*;
+        let s = |v: &[&str]| v.iter().map(|x| x.to_string()).collect::<Vec<_>>();
+        let alpha = TreeAlphabet { consts: vec![], props: s(&["a"]), vars: s(&["y", "x", "s"]), wilds: vec![], doms: vec![], un: vec![Un::EF], bi: vec![Bi::And], quant: vec![Hy::Bind, Hy::Exists], jump: true };
+        let bn = BooleanNetwork::try_from("a -> b\nb -| a\nb -?? b\n").map_err(|e| format!("harness: {e}"))?;
+        let graph = biodivine_hctl_model_checker::mc_utils::get_extended_symbolic_graph(&bn, 3)?;
+        let mut gen = TreeGen::new(alpha);
+        let mut n_sem = 0u64;
+        for size in 2..=(if tier == "quick" { 5 } else { 6 }) {
+            let trees = gen.exact(size);
+            let sel: Vec<&T> = trees.iter().filter(|t| t.scope_ok(&mut vec![], &["a".to_string()])).collect();
+            n_sem += sel.len() as u64;
+            let bad: Vec<Violation> = sel
+                .par_iter()
+                .filter_map(|t| {
+                    let text = t.render();
+                    let pre = match guarded(|| parse_extended_formula(&text).and_then(|tr| validate_props_and_rename_vars(tr, graph.symbolic_context()))) {
+                        Ok(Ok(p)) => p.to_string(),
+                        other => return Some(Violation { case: json!({"kind": "none"}), what: format!("input {text}: preprocessing of a well-scoped closed formula fails: {:?}", other.map(|r| r.map(|_| "ok"))), size: t.size() }),
+                    };
+                    let runs: [(&str, Box<dyn Fn(&str) -> Result<Result<biodivine_lib_param_bn::symbolic_async_graph::GraphColoredVertices, String>, String> + Sync>); 3] = [
+                        ("model_check_formula_dirty", Box::new(|x: &str| guarded(std::panic::AssertUnwindSafe(|| mc::model_check_formula_dirty(x, &graph))))),
+                        ("model_check_formula", Box::new(|x: &str| guarded(std::panic::AssertUnwindSafe(|| mc::model_check_formula(x, &graph))))),
+                        ("model_check_formula_unsafe_ex", Box::new(|x: &str| guarded(std::panic::AssertUnwindSafe(|| mc::model_check_formula_unsafe_ex(x, &graph))))),
+                    ];
+                    for (name, run) in runs.iter() {
+                        let what = match (run(&text), run(&pre)) {
+                            (Ok(Ok(a)), Ok(Ok(b))) if a == b => None,
+                            (Ok(Ok(_)), Ok(Ok(_))) => Some("the text as written and the preprocessed text give different sets".to_string()),
+                            (a, b) => Some(format!("as written: {:?}, preprocessed: {:?}", a.map(|r| r.map(|_| "a set")), b.map(|r| r.map(|_| "a set")))),
+                        };
+                        if let Some(w) = what {
+                            return Some(Violation { case: json!({"kind": "none"}), what: format!("input {text} (preprocessed: {pre}) through {name}: {w}"), size: t.size() });
+                        }
+                    }
+                    None
+                })
+                .collect();
+            rep.violations.extend(bad.into_iter().take(10));
+        }
+        rep.evaluations += n_sem * 6;
+        rep.set("well_scoped_trees_evaluated_as_written_and_preprocessed", json!(n_sem));
+    }
     // third pass: quantifiers WITH domains over two names (re-quantification inside a scope by a quantifier that has
     // a domain, domains on the outer / the inner / both quantifiers, jumps in between): 1..5 (6) nodes
     {
